@@ -25,8 +25,10 @@ S = Suite(
     "C06",
     what="whole-cell translation equivariance of sources, towers, footprint = reflected "
          "unit-source response, dispersion-mode re-centring; public API, np.roll of inputs/outputs",
-    bound="grids 6..24 x 6..20 (even; odd with clamped modes), dx!=dy, all shifts incl. wrap-around "
-          "sampled, modes truncated/at/above, halo 0 (full periodic comparison) and halo None / "
+    bound="grids 6..24 x 6..24 (even; odd with clamped modes), dx!=dy with binary-fraction cell "
+          "sizes and with decimal ones (0.3, 0.7, 0.9, 1.1, 1.3, 2.1, 2.7, 3.3 ... 6.1 m; for these EVERY "
+          "cell as tower, coordinate written as i*dx and as a 6-digit decimal), all shifts incl. "
+          "wrap-around sampled, modes truncated/at/above, halo 0 (full periodic comparison) and halo None / "
           "commensurate / incommensurate (overlap of the cropped windows only), MOST / MOSTM / "
           "CONSTANT and hand-built anisotropic veering profiles, random and sparse sources, "
           "double precision; a sample of this family",
@@ -123,6 +125,26 @@ def err_rel(a, b, scale):
     return float(np.max(np.abs(a - b))) / max(scale, 1e-300)
 
 
+def _dyadic(d):
+    """True when d is a small multiple of a power of two: i*d and (i*d)/d are then exact for all
+    the cell indices used here, so float quotients never fall an ulp below an integer."""
+    return float(d * 2 ** 20).is_integer()
+
+
+def spacing_class(dx, dy):
+    return "" if (_dyadic(dx) and _dyadic(dy)) else "-nondyadic-spacing"
+
+
+def _coord(i, d, coord):
+    """On-grid coordinate of cell i: the float product i*d, or the same number as a user would
+    type it (decimal literal with 6 digits).  Both denote the node i*d to within an ulp."""
+    if coord == "product":
+        return i * d
+    if coord == "decimal":
+        return float(repr(round(i * d, 6)))
+    raise ValueError(coord)
+
+
 def _setup(nx, ny, dx, dy, halo, modes, level, prof):
     z, profiles = make_profiles(prof)
     lev = level if level >= 0 else len(z) + level
@@ -165,18 +187,21 @@ def source_roll(nx, ny, dx, dy, modes, sx, sy, im, jm, level, prof, src, seed, b
 
 # ------------------------------------------------------------------ clause 2
 @S.kind("tower-roll")
-def tower_roll(nx, ny, dx, dy, modes, sx, sy, im, jm, level, prof, wrap):
+def tower_roll(nx, ny, dx, dy, modes, sx, sy, im, jm, level, prof, wrap, coord="product"):
     """halo=0: footprint(tower + s) == roll(footprint(tower), s)."""
     z, profiles, lev, domain, G, tol = _setup(nx, ny, dx, dy, 0.0, modes, level, prof)
     q0 = np.zeros((ny, nx))
-    c0, f0 = _call(q0, z, profiles, domain, lev, modes, 0.0, (im * dx, jm * dy), True)
+    c0, f0 = _call(q0, z, profiles, domain, lev, modes, 0.0,
+                   (_coord(im, dx, coord), _coord(jm, dy, coord)), True)
     i2, j2 = im + sx, jm + sy
     if wrap:
         i2, j2 = i2 % nx, j2 % ny
-    c1, f1 = _call(q0, z, profiles, domain, lev, modes, 0.0, (i2 * dx, j2 * dy), True)
+    c1, f1 = _call(q0, z, profiles, domain, lev, modes, 0.0,
+                   (_coord(i2, dx, coord), _coord(j2, dy, coord)), True)
     rc, rf = np.roll(c0, (sy, sx), axis=(0, 1)), np.roll(f0, (sy, sx), axis=(0, 1))
     return _verdict([("conc", c1, rc, np.max(np.abs(rc))), ("flx", f1, rf, np.max(np.abs(rf)))],
-                    tol, G, "tower-roll", "shift=(%d,%d)" % (sy, sx))
+                    tol, G, "tower-roll" + spacing_class(dx, dy),
+                    "tower=(%d,%d) shift=(%d,%d)" % (jm, im, sy, sx))
 
 
 @S.kind("tower-shift-halo")
@@ -189,27 +214,28 @@ def tower_shift_halo(nx, ny, dx, dy, halo, modes, sx, sy, im, jm, level, prof):
     ac, bc = overlap(c0, c1, sy, sx)
     af, bf = overlap(f0, f1, sy, sx)
     return _verdict([("conc", bc, ac, np.max(np.abs(c0))), ("flx", bf, af, np.max(np.abs(f0)))],
-                    tol, G, "tower-shift-" + halo_class(halo, nx, ny, dx, dy),
+                    tol, G, "tower-shift-" + halo_class(halo, nx, ny, dx, dy) + spacing_class(dx, dy),
                     "shift=(%d,%d)" % (sy, sx))
 
 
 # ------------------------------------------------------------------ clause 3
 @S.kind("point-reflection")
-def point_reflection(nx, ny, dx, dy, halo, modes, im, jm, level, prof):
+def point_reflection(nx, ny, dx, dy, halo, modes, im, jm, level, prof, coord="product"):
     """footprint(tower)[j,i] == R[2jm-j, 2im-i], R = dispersion response to a unit source in the
     tower cell (meas_pt=(0,0)); indices modulo the grid for halo=0, where defined otherwise."""
     z, profiles, lev, domain, G, tol = _setup(nx, ny, dx, dy, halo, modes, level, prof)
     q0 = np.zeros((ny, nx))
-    cf, ff = _call(q0, z, profiles, domain, lev, modes, halo, (im * dx, jm * dy), True)
+    cf, ff = _call(q0, z, profiles, domain, lev, modes, halo,
+                   (_coord(im, dx, coord), _coord(jm, dy, coord)), True)
     q1 = np.zeros((ny, nx))
     q1[jm, im] = 1.0
     cr, fr = _call(q1, z, profiles, domain, lev, modes, halo, (0.0, 0.0), False)
-    hc = halo_class(halo, nx, ny, dx, dy)
+    hc = halo_class(halo, nx, ny, dx, dy) + spacing_class(dx, dy)
     if cf.shape != (ny, nx) or cr.shape != (ny, nx):
         return Verdict(False, "shapes %s %s" % (cf.shape, cr.shape), key="shape-" + hc)
     jj = 2 * jm - np.arange(ny)
     ii = 2 * im - np.arange(nx)
-    if hc == "halo-zero":
+    if hc.startswith("halo-zero"):
         JJ, II = np.meshgrid(jj % ny, ii % nx, indexing="ij")
         pairs = [("conc", cf, cr[JJ, II], np.max(np.abs(cr))),
                  ("flx", ff, fr[JJ, II], np.max(np.abs(fr)))]
@@ -261,6 +287,23 @@ SPACINGS = [  # (dx, dy, commensurate halo, incommensurate halo); exactly repres
     (12.5, 6.25, 25.0, 30.0),
     (6.0, 9.0, 18.0, 13.0),
 ]
+# Cell sizes that are NOT binary fractions (typical user input: 0.7 m, 1.1 m ...).  On-grid
+# coordinates i*dx are then inexact and quotients like 2.1/0.7 fall an ulp below an integer; the
+# identities are unaffected (an ulp in the tower position moves the result by ~1e-16 relative).
+# (dx, dy, nominally commensurate halo, incommensurate halo)
+NONDYADIC = [
+    (0.7, 1.1, 2.1, 2.5),
+    (1.1, 0.7, 3.3, 2.0),
+    (0.3, 1.3, 0.9, 1.0),
+    (1.3, 0.3, 2.6, 1.0),
+    (2.7, 2.1, 8.1, 5.0),
+    (2.1, 0.9, 6.3, 4.0),
+    (3.3, 0.7, 6.6, 5.0),
+    (0.9, 3.3, 2.7, 4.0),
+    (5.4, 4.7, 16.2, 12.0),
+    (6.1, 5.9, 18.3, 20.0),
+]
+NONDYADIC_GRIDS = [(20, 12), (24, 20), (12, 16), (16, 24)]
 PROFILES = [
     dict(kind="closure", closure="MOST", n=6, zm=4.0, wind=[3.0, 1.0], ustar=0.4, mol=-50.0),
     dict(kind="closure", closure="MOSTM", n=6, zm=4.0, wind=[2.0, -3.0], ustar=0.4, mol=-30.0),
@@ -281,9 +324,18 @@ def generate(tier, rng):
             nzs[k] = len(make_profiles(PROFILES[k])[0])
         return nzs[k]
 
+    def resolved_level(pk, level, nx, ny, dx, dy, halo, modes, gmax=12.0):
+        """Largest level <= `level` whose rounding amplification estimate stays below gmax."""
+        z, profiles = make_profiles(PROFILES[pk])
+        while level > 1 and growth(z, profiles, level, nx, ny, dx, dy, halo, modes) > gmax:
+            level -= 1
+        return level
+
     def base(hk, even=False):
-        sp = rng.randrange(len(SPACINGS))
-        dx, dy, hcomm, hinc = SPACINGS[sp]
+        if rng.random() < 0.3:
+            dx, dy, hcomm, hinc = rng.choice(NONDYADIC)
+        else:
+            dx, dy, hcomm, hinc = rng.choice(SPACINGS)
         odd_ok = (not even) and rng.random() < 0.25
         nx = rng.choice([7, 9, 11, 15] if odd_ok else [6, 8, 10, 12, 16, 20, 24])
         ny = rng.choice([7, 9, 13] if (odd_ok and rng.random() < 0.5) else [6, 8, 10, 12, 16, 20])
@@ -299,9 +351,32 @@ def generate(tier, rng):
             modes = [2 * rng.randint(1, nxe // 2), 2 * rng.randint(1, nye // 2)]
         pk = rng.randrange(len(PROFILES))
         nz = nz_of(pk)
-        return dict(nx=nx, ny=ny, dx=dx, dy=dy, modes=modes,
-                    level=rng.choice([1, nz // 2, nz - 1, rng.randint(1, nz - 1)]),
+        level = rng.choice([1, nz // 2, nz - 1, rng.randint(1, nz - 1)])
+        if spacing_class(dx, dy):       # small cells: stay where the comparison is sharp
+            level = resolved_level(pk, level, nx, ny, dx, dy, halo, modes)
+        return dict(nx=nx, ny=ny, dx=dx, dy=dy, modes=modes, level=level,
                     prof=PROFILES[pk]), halo
+
+    # every cell of non-dyadic grids as tower position ("all measurement points"): whether the
+    # float quotient (i*dx)/dx is exact depends on i, dx and on how the coordinate was written,
+    # so the sweep is exhaustive in i and j instead of sampled
+    combos = [(sp, g, cm) for sp in range(len(NONDYADIC)) for g in range(len(NONDYADIC_GRIDS))
+              for cm in ("product", "decimal")]
+    if tier == "quick":
+        combos = [c for c in combos if (c[0] + c[1]) % 2 == 0 and c[1] < 2]
+    for sp, g, cm in combos:
+        dx, dy, _hc, _hi = NONDYADIC[sp]
+        nx, ny = NONDYADIC_GRIDS[g]
+        pk = (sp + g) % len(PROFILES)
+        nz = nz_of(pk)
+        top = resolved_level(pk, nz - 1, nx, ny, dx, dy, 0.0, [512, 512])
+        for t in range(1, max(nx, ny)):
+            im, jm = t % nx, t % ny
+            common = dict(nx=nx, ny=ny, dx=dx, dy=dy,
+                          modes=[512, 512] if t % 3 else [nx - 4, ny - 2],
+                          level=(top, max(1, top // 2), 1)[t % 3], prof=PROFILES[pk], coord=cm)
+            yield "tower-roll", dict(common, im=0, jm=0, sx=im, sy=jm, wrap=True)
+            yield "point-reflection", dict(common, halo=0.0, im=im, jm=jm)
 
     def shift(n):
         return rng.choice([0, 1, -1, 2, n // 2, n - 1, -(n - 1), rng.randint(-n, n), n + 1])
